@@ -240,6 +240,8 @@ pub struct World<A: Flavor> {
     pub page: usize,
     /// bytes that some owner has ever set non-zero (C08 non-triviality), by offset
     pub dirtied: Vec<bool>,
+    /// C13: the file was marked remove-on-drop: it must exist until the last holder is dropped and be gone right after
+    pub remove_on_drop: bool,
     pub crash: Option<Rc<CrashShared>>,
     /// per executed op: live set before and after (C06)
     pub live_log: Vec<(Vec<LiveRec>, Vec<LiveRec>, String)>,
@@ -388,10 +390,16 @@ impl<A: Flavor> World<A> {
             opno: 0,
             page,
             dirtied: vec![false; capacity],
+            remove_on_drop: false,
             crash: None,
             live_log: Vec::new(),
         };
         let mut w = w;
+        if w.mode.count_unmount && cfg.backend == Backend::File && cfg.magic % 2 == 1 {
+            w.a().remove_on_drop(true);
+            w.remove_on_drop = true;
+            w.classes.insert("remove-on-drop");
+        }
         w.install_hooks();
         Ok(Some(w))
     }
@@ -428,6 +436,7 @@ impl<A: Flavor> World<A> {
             opno: 0,
             page: page_size(),
             dirtied: vec![false; capacity],
+            remove_on_drop: false,
             crash: None,
             live_log: Vec::new(),
         };
@@ -1260,6 +1269,13 @@ impl<A: Flavor> World<A> {
     }
 
     fn check_unmounts(&self, when: &str) -> R {
+        if self.remove_on_drop {
+            if let Some(p) = &self.path {
+                let gone = !p.exists();
+                let should_be_gone = self.expected_unmounts > 0;
+                ensure!(gone == should_be_gone, "C13", "remove-on-drop-timing", "file marked remove-on-drop {} after {when} ({} release(s) of the backing memory expected so far)", if gone { "is gone" } else { "still exists" }, self.expected_unmounts);
+            }
+        }
         if self.mode.count_unmount {
             ensure!(
                 self.unmounts.get() == self.expected_unmounts,
